@@ -25,6 +25,8 @@ WindowInit ==
 Stutter    == UNCHANGED mcvars
 PriceSpec  == PriceInit /\ [][Stutter]_mcvars
 WindowSpec == WindowInit /\ [][Stutter]_mcvars
+(* both tables in one run (every theorem also holds on the other table's default values) *)
+AllSpec    == (PriceInit \/ WindowInit) /\ [][Stutter]_mcvars
 
 N(t) == NextFromTotal(prev, t, target, denom, min, since)
 nxt  == N(total)
